@@ -94,13 +94,14 @@ func runBGVRefresh(c *eng.Ctx, cc caseCfg) {
 	if w == nil {
 		return
 	}
+	w.setX(cc)
 	c.Sample(cc)
 	bpIn, n, t := w.bp, w.cf.Parties, w.bp.PlaintextModulus()
 	bpOut := bpIn
 	sameParams := cc.Out == nil
 	if !sameParams {
 		var err error
-		bpOut, err = bgv.NewParametersFromLiteral(bgv.ParametersLiteral{LogN: cc.Out.LogN, Q: cc.Out.Q, P: cc.Out.P, Xs: cc.Out.xs(), PlaintextModulus: t})
+		bpOut, err = bgv.NewParametersFromLiteral(bgv.ParametersLiteral{LogN: cc.Out.LogN, Q: cc.Out.Q, P: cc.Out.P, Xs: cc.Out.xs(), Xe: cc.Out.xe(), PlaintextModulus: t})
 		if err != nil {
 			c.Inconclusive("output parameters rejected: " + err.Error())
 			return
@@ -126,7 +127,7 @@ func runBGVRefresh(c *eng.Ctx, cc caseCfg) {
 	tbig := new(big.Int).SetUint64(t)
 
 	rounds := 0
-	for ctLevel := pIn.MaxLevel(); ctLevel >= 0; ctLevel-- {
+	for _, ctLevel := range w.levels(pIn.MaxLevel()) {
 		lv := levelsFor(ctLevel, func(l int) bool { return budgetBGV(bpIn, l, freshB+float64(n)*(BIn+1)+1) })
 		lo := levelsFor(pOut.MaxLevel(), func(l int) bool { return budgetBGV(bpOut, l, float64(n)*(BOut+1)+2) })
 		if len(lv) == 0 || len(lo) == 0 {
@@ -172,10 +173,12 @@ func runBGVRefresh(c *eng.Ctx, cc caseCfg) {
 			var perr error
 			if !c.Try(entry+".New", func() {
 				if useRefresh {
-					rp, perr = mpbgv.NewRefreshProtocol(bpIn, w.fl)
+					rp, perr = cached(w, "bgv-rp", func() (mpbgv.RefreshProtocol, error) { return mpbgv.NewRefreshProtocol(bpIn, w.fl) })
 					mt = rp.MaskedTransformProtocol
 				} else {
-					mt, perr = mpbgv.NewMaskedTransformProtocol(bpIn, bpOut, w.fl)
+					mt, perr = cached(w, "bgv-mt", func() (mpbgv.MaskedTransformProtocol, error) {
+						return mpbgv.NewMaskedTransformProtocol(bpIn, bpOut, w.fl)
+					})
 				}
 			}) {
 				return
@@ -191,11 +194,18 @@ func runBGVRefresh(c *eng.Ctx, cc caseCfg) {
 			e2sPolys, s2ePolys := make([]ring.Poly, n), make([]ring.Poly, n)
 			ok := true
 			for i := 0; i < n && ok; i++ {
-				pm := mt
-				if i%2 == 1 {
-					pm = mt.ShallowCopy()
+				var pm mpbgv.MaskedTransformProtocol
+				if useRefresh && w.x.On {
+					// the refresh protocol's own copy constructor and allocator
+					rpi := inst(w, "bgv-rp", i, rp, func(x mpbgv.RefreshProtocol) mpbgv.RefreshProtocol { return x.ShallowCopy() })
+					pm = rpi.MaskedTransformProtocol
+					shares[i] = rpi.AllocateShare(decLevel, outLevel)
+				} else {
+					pm = inst(w, fmt.Sprintf("bgv-mt/%v", useRefresh), i, mt, mpbgv.MaskedTransformProtocol.ShallowCopy)
+					shares[i] = pm.AllocateShare(decLevel, outLevel)
 				}
-				shares[i] = pm.AllocateShare(decLevel, outLevel)
+				w.dirtyPoly(pIn, shares[i].EncToShareShare.Value)
+				w.dirtyPoly(pOut, shares[i].ShareToEncShare.Value)
 				var gerr error
 				if !c.Try(entry+".GenShare", func() {
 					if useRefresh {
@@ -253,6 +263,7 @@ func runBGVRefresh(c *eng.Ctx, cc caseCfg) {
 					break
 				}
 				e2sPool.add(e)
+				w.ppool("bgv-mt-e2s", i).add(e)
 				// recryption share + crp*s_out,i = e'_i + t^-1*f(M_i)
 				y := addP(rOut, coef(rOut, shares[i].ShareToEncShare.Value, true), mulS(rOut, crp.Value, true, outKeys.sk[i].Value.Q))
 				fm := applyT(w.benc, encOut, ringT, tr, ct.Scale, mask)
@@ -266,6 +277,7 @@ func runBGVRefresh(c *eng.Ctx, cc caseCfg) {
 					break
 				}
 				s2ePool.add(e2)
+				w.ppool("bgv-mt-s2e", i).add(e2)
 				e2sPolys[i], s2ePolys[i] = shares[i].EncToShareShare.Value, shares[i].ShareToEncShare.Value
 			}
 			if !ok {
@@ -317,6 +329,12 @@ func runBGVRefresh(c *eng.Ctx, cc caseCfg) {
 					*dst.MetaData = *ct.MetaData
 				case "fresh-output":
 					dst = bgv.NewCiphertext(bpOut, 1, outLevel)
+					if w.x.Dirty {
+						dst = bgv.NewCiphertext(bpOut, 1, w.rnd.N(pOut.MaxLevel()+1))
+					}
+				}
+				if shape != "inplace" {
+					w.dirtyCt(pOut, dst)
 				}
 				var terr error
 				sg := entry + ".Transform"
@@ -378,6 +396,8 @@ func runBGVRefresh(c *eng.Ctx, cc caseCfg) {
 	}
 	checkFloor(c, "C16|mpbgv.MaskedTransformProtocol.GenShare|e2s", e2sPool, ndIn.Sigma, ndIn.Sigma)
 	checkFloor(c, "C16|mpbgv.MaskedTransformProtocol.GenShare|s2e", s2ePool, ndOut.Sigma, ndOut.Sigma)
+	w.checkPools("bgv-mt-e2s", "C16|mpbgv.MaskedTransformProtocol.GenShare|e2s", ndIn.Sigma, ndIn.Sigma)
+	w.checkPools("bgv-mt-s2e", "C16|mpbgv.MaskedTransformProtocol.GenShare|s2e", ndOut.Sigma, ndOut.Sigma)
 	_ = rounds
 }
 
